@@ -91,7 +91,7 @@ def run(r):
                                  "expected": o["orig"][:200], "host": host})
                     continue
                 reprs = "[" + "; ".join(f"({b}, {C.blist(s)})" for b, s in o["reprs"]) + "]"
-                lits.append(f"(dumps (fun b => match zassoc b {reprs} with Some s => s | None => [] end) {lit(o['seen'])}, {C.blist(o['bytes'])})")
+                lits.append(f"(dumps (fun b => match zassoc b {reprs} with Some s => s | None => [] end) false {lit(o['seen'])}, {C.blist(o['bytes'])})")
                 keep.append((v, o))
             if host == C.HOST_DEFAULT:
                 bad, errs = C.coq_cases(r.wd, "mdumps", HEADER, "list Z * list Z", "fun c => zlist_eqb (fst c) (snd c)", lits, chunk=100)
